@@ -53,6 +53,8 @@ type slotCase struct {
 	Code  string `json:"code,omitempty"`
 }
 
+// (the slot cases are fully determined by iv/ms/ns/n: no seed needed to replay them)
+
 const nsPerMs = 1000000
 
 // nsOf gives a ns timestamp whose ms part (Go's truncating division) is ms, with sub-ms remainder off.
